@@ -15,6 +15,10 @@
 import Ctrmml.Proofs.Seek
 import Ctrmml.Proofs.SeekAlive
 import Ctrmml.Proofs.SeekEnd
+import Ctrmml.Proofs.SeekFrom
+import Ctrmml.Proofs.SeekFlat
+import Ctrmml.Proofs.SeekFlatL
+import Ctrmml.Proofs.SeekLoop1
 namespace Ctrmml.C12
 open Ctrmml Player PlayerCh
 
@@ -214,5 +218,263 @@ example : obs1 (skipTicks exSong exRoot pdAll 20 initPS) = obs1 (iter (playTick 
 example : (iter (playTick exSong exRoot pdAll) 21 initPS).acc.enabled = false ∧
     (iter (playTick exSong exRoot pdAll) 21 initPS).acc.playTime = 14 ∧
     (skipTicks exSong exRoot pdAll 20 initPS).acc.playTime = 20 := by decide +kernel
+
+/-! ## Round 3, part 1: seeks on a player that is not fresh -/
+
+/-- every state left by at least one `play_tick()` (from any state) is settled: a duration is
+pending, or the track has stopped, or an error is recorded.  No aliveness is needed. -/
+theorem C12_played_settled (song : Song) (root : List Event) (pd : Int → Bool) (m : Nat) (s : PS) :
+    isSettled (iter (playTick song root pd) (m + 1) s) = true := by
+  have hpt : playTick song root pd = playTickS song root pd := funext (playTick_eq song root pd)
+  rw [hpt]
+  exact iter_succ_settled song root pd m s
+
+/-- **Seeking = playing from any settled state.**  For a settled state `s` (not necessarily
+fresh) and every `n ≥ 1` such that the track is alive after `n - 1` single ticks from `s`,
+`skip_ticks(n)` leaves exactly the state of `n` calls of `play_tick()`: from a settled state there
+is NO off-by-one.  (The `n+1` of `C12_seek_eq_play` comes only from the fresh player being
+unsettled: its first `play_tick()` fetches the first event without letting time pass, and
+`skip_ticks` does the same fetch in the first round of its loop.) -/
+theorem C12_seek_eq_play_from (song : Song) (root : List Event) (pd : Int → Bool) (s : PS)
+    (hs : isSettled s = true) (n : Nat) (hn : n ≥ 1)
+    (halive : alive (iter (playTick song root pd) (n - 1) s)) :
+    skipTicks song root pd n s = iter (playTick song root pd) n s := by
+  have hpt : playTick song root pd = playTickS song root pd := funext (playTick_eq song root pd)
+  rw [hpt] at halive ⊢
+  have hall := alive_of_leS song root pd (n - 1) s halive
+  exact skipTicks_eq_iter_of_settled song root pd n s hs (hall 0 (by omega))
+    (fun k hk => hall k (by omega))
+
+/-- **Seeking after playing.**  After `m+1` single ticks on a fresh player (any `m`), a seek by
+`n ≥ 1` leaves the state of `m+1+n` single ticks, provided the track is alive after `m+n` ticks
+(the last tick before the landing one). -/
+theorem C12_seek_eq_play_after_play (song : Song) (root : List Event) (pd : Int → Bool) (m n : Nat)
+    (hn : n ≥ 1) (halive : alive (iter (playTick song root pd) (m + n) initPS)) :
+    skipTicks song root pd n (iter (playTick song root pd) (m + 1) initPS)
+      = iter (playTick song root pd) (m + 1 + n) initPS := by
+  rw [iter_add (playTick song root pd) (m + 1) n initPS]
+  apply C12_seek_eq_play_from song root pd _ (C12_played_settled song root pd m initPS) n hn
+  rw [← iter_add (playTick song root pd) (m + 1) (n - 1) initPS]
+  have : m + 1 + (n - 1) = m + n := by omega
+  rw [this]; exact halive
+
+/-- the same up to `obs` when only "no error" is known: `s` settled and alive, no error after
+`n - 1` ticks from `s` -/
+theorem C12_seek_eq_play_from_noerr (song : Song) (root : List Event) (pd : Int → Bool) (s : PS)
+    (hs : isSettled s = true) (hal : alive s) (n : Nat) (hn : n ≥ 1)
+    (hnoerr : (iter (playTick song root pd) (n - 1) s).err = none) :
+    obs (skipTicks song root pd n s) = obs (iter (playTick song root pd) n s) := by
+  have hpt : playTick song root pd = playTickS song root pd := funext (playTick_eq song root pd)
+  rw [hpt] at hnoerr ⊢
+  have hall := err_of_leS song root pd (n - 1) s hnoerr
+  exact skipTicks_obs_iter_of_settled song root pd n s hs hal (fun k hk => hall k (by omega))
+
+theorem alive_of_le (song : Song) (root : List Event) (pd : Int → Bool) (n : Nat) (s : PS)
+    (h : alive (iter (playTick song root pd) n s)) (k : Nat) (hk : k ≤ n) :
+    alive (iter (playTick song root pd) k s) := by
+  have hpt : playTick song root pd = playTickS song root pd := funext (playTick_eq song root pd)
+  rw [hpt] at h ⊢
+  exact alive_of_leS song root pd n s h k hk
+
+/-- the round-2 example track: seek 3 after 4 played ticks = 7 played ticks; the hypothesis
+(alive after 6 ticks) follows from `C12_example_alive` -/
+example : skipTicks exSong exRoot pdAll 3 (iter (playTick exSong exRoot pdAll) 4 initPS)
+    = iter (playTick exSong exRoot pdAll) 7 initPS :=
+  C12_seek_eq_play_after_play exSong exRoot pdAll 3 3 (by decide)
+    (alive_of_le exSong exRoot pdAll 8 initPS C12_example_alive 6 (by decide))
+
+/-- evaluated: the player is at time 3 (inside the first pass of the loop, on `d`) before the
+seek and at time 6 afterwards (second pass, inside the on-time of `c`, transpose applied once) -/
+theorem C12_example_from_lands :
+    let s0 := iter (playTick exSong exRoot pdAll) 4 initPS
+    let s := skipTicks exSong exRoot pdAll 3 s0
+    s0.acc.playTime = 3 ∧ s0.ch.lastNote = 2 ∧ isSettled s0 = true ∧
+    s.acc.playTime = 6 ∧ s.ch.lastNote = 1 ∧ getCh s.ch Tables.ev_TRANSPOSE = 2 ∧
+    s = iter (playTick exSong exRoot pdAll) 7 initPS := by
+  decide +kernel
+
+/-! ## Round 3, part 2: the no-error hypothesis discharged for flat tracks
+
+`Flat root` (Proofs/SeekFlat.lean, decidable): every event of the root track is of control kind
+"other" (not LOOP_START / LOOP_BREAK / LOOP_END / SEGNO / JUMP / END) and is neither PLATFORM nor
+DRUM_MODE -- i.e. NOTE / REST / TIE / NOP and every channel command except drum mode, absolute or
+relative -- and the track has fewer than 100000 events.  The length bound is necessary for the
+MODEL: its inner fetch loop carries a step budget of 100000 and a run of that many zero-length
+events would exhaust it and record the model-only error `fuel`. -/
+
+/-- **A flat track never records an error**, at any number of ticks, for every song and
+platform table (invariant over `pstep` / `settle` / `play_tick`: on the root track, empty stack,
+no loop point, drum mode off, no error, stopped once the position has passed the synthesised END;
+each fetch step advances the position by one, so the step budget is never exhausted). -/
+theorem noerr_of_flat (song : Song) (root : List Event) (pd : Int → Bool) (h : Flat root) (n : Nat) :
+    (iter (playTick song root pd) n initPS).err = none := by
+  have hpt : playTick song root pd = playTickS song root pd := funext (playTick_eq song root pd)
+  rw [hpt]
+  exact (iter_flat song root pd h n initPS (initPS_flat root)).err
+
+/-- **Seeking = playing on flat tracks, NO aliveness or no-error hypothesis**: for every song,
+flat root track, platform table and `n ≥ 1`, `skip_ticks(n)` on a fresh player and `n+1`
+`play_tick()`s agree on `obs` (the whole state while the track is enabled; everything except
+play_time / on_time / off_time once it has ended). -/
+theorem C12_seek_eq_play_flat (song : Song) (root : List Event) (pd : Int → Bool) (h : Flat root)
+    (n : Nat) (hn : n ≥ 1) :
+    obs (skipTicks song root pd n initPS) = obs (iter (playTick song root pd) (n + 1) initPS) :=
+  C12_seek_eq_play_noerr song root pd n hn (noerr_of_flat song root pd h n)
+
+/-- on a flat track, whole-state equality as soon as the track is still enabled after `n` ticks -/
+theorem C12_seek_eq_play_flat_enabled (song : Song) (root : List Event) (pd : Int → Bool) (h : Flat root)
+    (n : Nat) (hn : n ≥ 1) (hen : (iter (playTick song root pd) n initPS).acc.enabled = true) :
+    skipTicks song root pd n initPS = iter (playTick song root pd) (n + 1) initPS :=
+  C12_seek_eq_play_of_alive_last song root pd n hn ⟨hen, noerr_of_flat song root pd h n⟩
+
+/-- flat tracks, seek after playing: after `m+1` ticks with the track still enabled, a seek by
+`n ≥ 1` agrees with `m+1+n` single ticks on `obs` -/
+theorem C12_seek_eq_play_flat_after_play (song : Song) (root : List Event) (pd : Int → Bool) (h : Flat root)
+    (m n : Nat) (hn : n ≥ 1) (hen : (iter (playTick song root pd) (m + 1) initPS).acc.enabled = true) :
+    obs (skipTicks song root pd n (iter (playTick song root pd) (m + 1) initPS))
+      = obs (iter (playTick song root pd) (m + 1 + n) initPS) := by
+  rw [iter_add (playTick song root pd) (m + 1) n initPS]
+  apply C12_seek_eq_play_from_noerr song root pd _ (C12_played_settled song root pd m initPS)
+    ⟨hen, noerr_of_flat song root pd h (m + 1)⟩ n hn
+  rw [← iter_add (playTick song root pd) (m + 1) (n - 1) initPS]
+  exact noerr_of_flat song root pd h _
+
+/-- a flat track: `k+2 c:2:1 v5 r:0:2 ^:1:0 @3 vf+1 e:3:0 t120` -/
+def flatRoot : List Event :=
+  [ { type := Tables.ev_TRANSPOSE_REL, param := 2, on := 0, off := 0 },
+    { type := Tables.ev_NOTE, param := 1, on := 2, off := 1 },
+    { type := Tables.ev_VOL, param := 5, on := 0, off := 0 },
+    { type := Tables.ev_REST, param := 0, on := 0, off := 2 },
+    { type := Tables.ev_TIE, param := 0, on := 1, off := 0 },
+    { type := Tables.ev_INS, param := 3, on := 0, off := 0 },
+    { type := Tables.ev_VOL_FINE_REL, param := 1, on := 0, off := 0 },
+    { type := Tables.ev_NOTE, param := 5, on := 3, off := 0 },
+    { type := Tables.ev_TEMPO_BPM, param := 120, on := 0, off := 0 } ]
+
+theorem flatRoot_flat : Flat flatRoot := by decide
+
+/-- the round-2 example track is not flat (the predicate is not trivially true) -/
+example : ¬ Flat exRoot := by decide
+
+example : obs (skipTicks exSong flatRoot pdAll 5 initPS) = obs (iter (playTick exSong flatRoot pdAll) 6 initPS) :=
+  C12_seek_eq_play_flat exSong flatRoot pdAll flatRoot_flat 5 (by decide)
+
+/-- evaluated: the seek by 5 lands in the TIE (time 5 of 9) with the transpose and the coarse
+volume applied; past the end (seek 12) the track has stopped without error -/
+theorem C12_example_flat_lands :
+    let s := skipTicks exSong flatRoot pdAll 5 initPS
+    s.acc.enabled = true ∧ s.acc.playTime = 5 ∧ s.acc.onTime = 1 ∧ s.core.position = 5 ∧
+    getCh s.ch Tables.ev_TRANSPOSE = 2 ∧ getCh s.ch Tables.ev_VOL_FINE = 5 ∧ s.ch.lastNote = 1 ∧
+    s = iter (playTick exSong flatRoot pdAll) 6 initPS ∧
+    (iter (playTick exSong flatRoot pdAll) 13 initPS).acc.enabled = false ∧
+    (iter (playTick exSong flatRoot pdAll) 13 initPS).err = none := by
+  decide +kernel
+
+/-! ## Round 3, part 3: flat tracks with a loop point
+
+`FlatL root` (Proofs/SeekFlatL.lean, decidable) additionally allows SEGNO (the loop point) and
+explicit END events, with fewer than 49000 events.  Such a track plays forever when time passes
+between the loop point and the end; the fetch loop is bounded through the zero-time guard of the
+root END (`last_loop_jump_time`): within one run `play_time` is constant, so at most one jump back
+can happen per run -- at most `2 * length + 3` steps, below the model's budget. -/
+
+/-- **A flat track with a loop point never records an error** -/
+theorem noerr_of_flatL (song : Song) (root : List Event) (pd : Int → Bool) (h : FlatL root) (n : Nat) :
+    (iter (playTick song root pd) n initPS).err = none := by
+  have hpt : playTick song root pd = playTickS song root pd := funext (playTick_eq song root pd)
+  rw [hpt]
+  exact (iter_flatL song root pd h n initPS (initPS_flatL root)).err
+
+/-- **Seeking = playing on flat tracks with a loop point, no aliveness / no-error hypothesis** -/
+theorem C12_seek_eq_play_flatL (song : Song) (root : List Event) (pd : Int → Bool) (h : FlatL root)
+    (n : Nat) (hn : n ≥ 1) :
+    obs (skipTicks song root pd n initPS) = obs (iter (playTick song root pd) (n + 1) initPS) :=
+  C12_seek_eq_play_noerr song root pd n hn (noerr_of_flatL song root pd h n)
+
+/-- whole-state equality while the track is enabled -/
+theorem C12_seek_eq_play_flatL_enabled (song : Song) (root : List Event) (pd : Int → Bool) (h : FlatL root)
+    (n : Nat) (hn : n ≥ 1) (hen : (iter (playTick song root pd) n initPS).acc.enabled = true) :
+    skipTicks song root pd n initPS = iter (playTick song root pd) (n + 1) initPS :=
+  C12_seek_eq_play_of_alive_last song root pd n hn ⟨hen, noerr_of_flatL song root pd h n⟩
+
+/-- `c:2:1 L v+1 d:1:1`: plays forever, the volume grows by one per pass -/
+def flatLRoot : List Event :=
+  [ { type := Tables.ev_NOTE, param := 1, on := 2, off := 1 },
+    { type := Tables.ev_SEGNO, param := 0, on := 0, off := 0 },
+    { type := Tables.ev_VOL_REL, param := 1, on := 0, off := 0 },
+    { type := Tables.ev_NOTE, param := 2, on := 1, off := 1 } ]
+
+theorem flatLRoot_flatL : FlatL flatLRoot := by decide
+
+example : ¬ Flat flatLRoot := by decide
+
+example : obs (skipTicks exSong flatLRoot pdAll 20 initPS) = obs (iter (playTick exSong flatLRoot pdAll) 21 initPS) :=
+  C12_seek_eq_play_flatL exSong flatLRoot pdAll flatLRoot_flatL 20 (by decide)
+
+/-- evaluated: a seek by 20 lands in the ninth pass of the loop section (volume 9), still playing -/
+theorem C12_example_flatL_lands :
+    let s := skipTicks exSong flatLRoot pdAll 20 initPS
+    s.acc.enabled = true ∧ s.acc.playTime = 20 ∧ getCh s.ch Tables.ev_VOL_FINE = 9 ∧
+    s = iter (playTick exSong flatLRoot pdAll) 21 initPS := by
+  decide +kernel
+
+/-! ## Round 3, part 4: counted loops without nesting
+
+`Loop1 root` (Proofs/SeekLoop1.lean, decidable): the root track consists of "other" events (not
+PLATFORM, not DRUM_MODE) and non-nested, closed `[ … ] n` loops with `0 ≤ n ≤ 255` and no
+LOOP_BREAK (no SEGNO / JUMP / END), and `W root + 255 * (length + 1) < 100000` where `W` counts 1
+per event and `255 * (length + 1) + 1` per LOOP_START -- a bound on the number of steps of any run
+of the fetch loop (model budget; the C++ has none). -/
+
+/-- **A track with non-nested counted loops never records an error** (invariant: the stack is
+empty or one LOOP frame whose start lies in the same loop body as the position; count in 0..255;
+measure = weight of the rest of the track + count * (length+1)). -/
+theorem noerr_of_loop1 (song : Song) (root : List Event) (pd : Int → Bool) (h : Loop1 root) (n : Nat) :
+    (iter (playTick song root pd) n initPS).err = none := by
+  have hpt : playTick song root pd = playTickS song root pd := funext (playTick_eq song root pd)
+  rw [hpt]
+  exact (iter_loop1 song root pd h n initPS (initPS_loop1 root h)).err
+
+/-- **Seeking = playing on tracks with non-nested counted loops, no aliveness / no-error
+hypothesis** -/
+theorem C12_seek_eq_play_loop1 (song : Song) (root : List Event) (pd : Int → Bool) (h : Loop1 root)
+    (n : Nat) (hn : n ≥ 1) :
+    obs (skipTicks song root pd n initPS) = obs (iter (playTick song root pd) (n + 1) initPS) :=
+  C12_seek_eq_play_noerr song root pd n hn (noerr_of_loop1 song root pd h n)
+
+/-- whole-state equality while the track is enabled -/
+theorem C12_seek_eq_play_loop1_enabled (song : Song) (root : List Event) (pd : Int → Bool) (h : Loop1 root)
+    (n : Nat) (hn : n ≥ 1) (hen : (iter (playTick song root pd) n initPS).acc.enabled = true) :
+    skipTicks song root pd n initPS = iter (playTick song root pd) (n + 1) initPS :=
+  C12_seek_eq_play_of_alive_last song root pd n hn ⟨hen, noerr_of_loop1 song root pd h n⟩
+
+/-- `[ c:2:1 k+2 ]3 v5 [ d:1:0 ]2 e:1:1` -/
+def loopRoot : List Event :=
+  [ { type := Tables.ev_LOOP_START, param := 0, on := 0, off := 0 },
+    { type := Tables.ev_NOTE, param := 1, on := 2, off := 1 },
+    { type := Tables.ev_TRANSPOSE_REL, param := 2, on := 0, off := 0 },
+    { type := Tables.ev_LOOP_END, param := 3, on := 0, off := 0 },
+    { type := Tables.ev_VOL, param := 5, on := 0, off := 0 },
+    { type := Tables.ev_LOOP_START, param := 0, on := 0, off := 0 },
+    { type := Tables.ev_NOTE, param := 2, on := 1, off := 0 },
+    { type := Tables.ev_LOOP_END, param := 2, on := 0, off := 0 },
+    { type := Tables.ev_NOTE, param := 3, on := 1, off := 1 } ]
+
+theorem loopRoot_loop1 : Loop1 loopRoot := by decide
+
+/-- nested loops and loops with a break are outside the class -/
+example : ¬ Loop1 exRoot := by decide
+
+example : obs (skipTicks exSong loopRoot pdAll 10 initPS) = obs (iter (playTick exSong loopRoot pdAll) 11 initPS) :=
+  C12_seek_eq_play_loop1 exSong loopRoot pdAll loopRoot_loop1 10 (by decide)
+
+/-- evaluated: a seek by 10 lands in the second pass of the second loop (three passes of the
+first loop applied the transpose three times) -/
+theorem C12_example_loop1_lands :
+    let s := skipTicks exSong loopRoot pdAll 10 initPS
+    s.acc.enabled = true ∧ s.acc.playTime = 10 ∧ getCh s.ch Tables.ev_TRANSPOSE = 6 ∧
+    getCh s.ch Tables.ev_VOL_FINE = 5 ∧ s.ch.lastNote = 2 ∧ s.core.stack.length = 1 ∧
+    s = iter (playTick exSong loopRoot pdAll) 11 initPS := by
+  decide +kernel
 
 end Ctrmml.C12
